@@ -466,3 +466,101 @@ class LogService(Contract):
 
 
 CONTRACTS = [NodeContrib, NsContrib, TwoServicesAnyOrder, PdpRequest, FromTimeDelta, LogNode, LogService]
+
+
+# ------------------------------------------------------------------------------------------- whole topologies
+from contracts import topo as _topo
+from fim.user.topology import ExperimentTopology
+from fim.slivers.capacities_labels import Labels
+from fim.slivers.network_service import MirrorDirection
+
+
+def _slice_a(h, port_name, site):
+    """a slice whose bridge port carries the label local_name=port_name (so that name is 'in the slice' for slice A)"""
+    t = h.call(ExperimentTopology)
+    n = h.call(h.getattr(t, 'add_node'), name='a1', site=site)
+    c = h.call(h.getattr(n, 'add_component'), name='nic', model_type=_topo.CMT('SharedNIC_ConnectX_6'))
+    i = _topo.iface(h, c, 'nic-p1')
+    h.call(h.getattr(t, 'add_network_service'), name='brA', nstype=ServiceType.L2Bridge, interfaces=PList([i]) if h.mode == 'sym' else [i])
+    peer = _topo.pylist(h.call(h.getattr(i, 'get_peers')))[0]
+    h.call(h.getattr(peer, 'set_properties'), labels=h.call(Labels, local_name=port_name))
+    return t
+
+
+def _slice_b(h, port_name, site1, site2, core):
+    """two nodes on two sites, a GPU, a facility, and a port mirror of a port that is NOT part of this slice"""
+    t = h.call(ExperimentTopology)
+    n1 = h.call(h.getattr(t, 'add_node'), name='b1', site=site1, capacities=h.call(Capacities, core=core, ram=8, disk=10))
+    h.call(h.getattr(n1, 'add_component'), name='gpu', model_type=_topo.CMT('GPU_Tesla_T4'))
+    n2 = h.call(h.getattr(t, 'add_node'), name='b2', site=site2)
+    c = h.call(h.getattr(n2, 'add_component'), name='nic', model_type=_topo.CMT('SmartNIC_ConnectX_6'))
+    i = _topo.iface(h, c, 'nic-p1')
+    h.call(h.getattr(t, 'add_port_mirror_service'), name='mirror', from_interface_name=port_name, to_interface=i)
+    h.call(h.getattr(t, 'add_facility'), name='fac', site=site1, capacities=h.call(Capacities, bw=10))
+    # validation records the site of single-site services (the mirror service sits where its receiving port is)
+    h.call(h.getattr(t, 'validate'))
+    return t
+
+
+def _attrs(h, t):
+    c = h.call(RA)
+    h.call(h.getattr(c, 'collect_resource_attributes'), source=t)
+    d = h.getattr(c, 'attributes') if False else fld(c, '_attributes')
+    out = {}
+    for k in keys(d):
+        out[k] = list(items(fld(d, k)))
+    return out
+
+
+class TopologyCollection(Contract):
+    """collection from a whole topology object: equals a direct tally of the slice, and does not depend on what was collected
+    earlier in the same process (a fresh collector on slice B after slice A has been collected)"""
+    target = TA + '_collect_attributes_from_topo'
+    extra_targets = (TA + 'collect_resource_attributes', TA + '_collect_attributes_from_node', TA + '_collect_attributes_from_ns')
+    props = ('C11',)
+    bounded = _topo.BOUND + '; two fixed slice programs with symbolic sites, port name and core count'
+    summaries = _topo.SUMMARIES
+    max_paths = 4000
+    cost = 60
+
+    def inputs(self, g):
+        return [g.atom('port'), g.atom('siteA'), g.atom('site1'), g.atom('site2'), g.int('core', lo=1)], {}
+
+    def body(self, h, port, siteA, site1, site2, core):
+        _topo.fresh_world(h)
+        alone = _attrs(h, _slice_b(h, port, site1, site2, core))
+        _topo.fresh_world(h)
+        ta = _slice_a(h, port, siteA)
+        tb = _slice_b(h, port, site1, site2, core)
+        first = _attrs(h, ta)
+        after = _attrs(h, tb)
+        return (alone, after, first)
+
+    @staticmethod
+    def _tally(pre, post):
+        if not returned(post):
+            return False
+        port, siteA, site1, site2, core = pre.args
+        alone = post.result[0]
+        g = lambda k: alone.get(k, [])
+        sites = g(RA.RESOURCE_SITE)
+        return And(And(*[member(s, sites) for s in (site1, site2)]), And(*[Or(eq(s, site1), eq(s, site2)) for s in sites]),
+                   lists_eq(g(RA.RESOURCE_CPU), [core, 0]) if len(g(RA.RESOURCE_CPU)) == 2 else lists_eq(g(RA.RESOURCE_CPU), [core]),
+                   lists_eq(sorted(map(str, g(RA.RESOURCE_COMPONENT))), ['GPU', 'SmartNIC']),
+                   lists_eq(g(RA.RESOURCE_FACILITY_PORT), ['fac']),
+                   lists_eq(g(RA.RESOURCE_MIRROR_SITE), [site2]))
+
+    @staticmethod
+    def _independent(pre, post):
+        if not returned(post):
+            return False
+        alone, after, _ = post.result
+        if set(alone) != set(after):
+            return False
+        return And(*[lists_eq(alone[k], after[k]) for k in alone])
+
+    ensures = {'topo.attributes_equal_a_direct_tally': lambda pre, post: TopologyCollection._tally(pre, post),
+               'topo.collection_independent_of_earlier_collections': lambda pre, post: TopologyCollection._independent(pre, post)}
+
+
+CONTRACTS.append(TopologyCollection)
